@@ -7,7 +7,7 @@
   still healthy).
 
   Model: Renet/Conn.lean (`RenetClient`), Renet/Server.lean (`RenetServer`).
-  Vocabulary (Lemmas/ServerLemmas.lean):
+  Vocabulary (Lemmas/ServerLemmas.lean, namespace `RenetVerif.SL`):
     `ConnOp`, `ConnOp.apply`, `Conn.runOps`  – every public operation of a connection, as data
     `SrvOp`, `SrvOp.apply`, `runSrv`         – every public operation of the server, as data; the state is
                                                the server plus the events `get_event` already popped
@@ -16,7 +16,7 @@
 -/
 import RenetVerif.Lemmas.ServerLemmas
 namespace RenetVerif.C12
-open RenetVerif
+open RenetVerif RenetVerif.SL
 
 /-! ### 1. Disconnected is absorbing and keeps the first reason -/
 
@@ -51,13 +51,13 @@ theorem status_first_reason (c c' : Conn) (op : ConnOp) (r : Reason)
 
 /-- … and so for every sequence of operations. -/
 theorem status_monotone (ops : List ConnOp) (c c' : Conn) (r : Reason)
-    (h : c.runOps ops = .ok c') (hr : c.status = .disconnected r) : c'.status = .disconnected r :=
+    (h : Conn.runOps c ops = .ok c') (hr : c.status = .disconnected r) : c'.status = .disconnected r :=
   Conn.runOps_keeps ops c c' h r hr
 
 /-- The first reason wins: disconnect a live connection with `r`, then do anything (including
     disconnecting again with other reasons); the status is still `disconnected r`. -/
 theorem first_reason_wins (c c' : Conn) (r : Reason) (ops : List ConnOp) (hc : c.isDisconnected = false)
-    (h : (c.disconnectWith r).runOps ops = .ok c') : c'.status = .disconnected r := by
+    (h : Conn.runOps (c.disconnectWith r) ops = .ok c') : c'.status = .disconnected r := by
   apply status_monotone ops _ c' r h
   rw [Conn.disconnectWith_status, hc]; rfl
 
@@ -70,13 +70,13 @@ theorem disconnected_frozen (c : Conn) (r : Reason) (h : c.status = .disconnecte
 
 /-- What `Alternates` says, part 1: the first event about a client is a connect ("never a disconnect
     without a preceding connect" – together with part 2). -/
-theorem alternates_first (e : Event) (l : List Event) (h : Alternates (e :: l)) : e.isConnect = true :=
+theorem alternates_first (e : Event) (l : List Event) (h : Alternates (e :: l)) : Event.isConnect e = true :=
   alternates_head h
 
 /-- What `Alternates` says, part 2: two consecutive events are of different kinds ("never two connects
     without a disconnect between them", and never two disconnects without a connect between them). -/
 theorem alternates_no_repeat (l1 l2 : List Event) (a b : Event) (h : Alternates (l1 ++ a :: b :: l2)) :
-    a.isConnect ≠ b.isConnect := alternates_adjacent h
+    Event.isConnect a ≠ Event.isConnect b := alternates_adjacent h
 
 /-- Starting from a fresh server, after any sequence of public operations with any arguments (that does
     not hit a documented panic of the API), for every client id: the events ever reported about it
@@ -168,7 +168,7 @@ def statusOf (x : Res Empty Conn) : Option Status :=
   match x with | .ok c => some c.status | _ => none
 
 /-- a live connection is killed by an undecodable packet; nothing afterwards changes the reason -/
-example : statusOf (conn0.runOps [.sendMessage 0 [1, 2, 3], .processPacket [255], .setConnected,
+example : statusOf (Conn.runOps conn0 [.sendMessage 0 [1, 2, 3], .processPacket [255], .setConnected,
       .disconnectWith .transport, .sendMessage 1 [9], .processPacket [255], .update 5, .getPacketsToSend,
       .disconnect, .setConnecting, .receiveMessage 0]) =
     some (.disconnected (.packetDeser .invalidPacketType)) := by decide
